@@ -78,6 +78,7 @@ def prims : Prims where
   toTs v := match v with
     | .ts us off => .ok (us, off)
     | _ => .ok (0, 0)
+  getter _ _ _ := .ok 1   -- placeholder (never 0: a divisor)
   strPred p s t := .ok (match p with
     | 0 => t.isPrefixOf s
     | 1 => t.reverse.isPrefixOf s.reverse
@@ -105,6 +106,13 @@ partial def parseE : List String → Option (TExpr × List String)
   | "size" :: rest => do let (a, r) ← parseE rest; pure (.size a, r)
   | "pred" :: k :: rest => do
       let k ← k.toNat?; let (a, r1) ← parseE rest; let (b, r2) ← parseE r1; pure (.strPred k a b, r2)
+  | "get" :: k :: tz :: rest => do
+      let k ← k.toNat?; let tz ← tz.toNat?
+      let (e, r1) ← parseE rest
+      if tz == 0 then pure (.getter k e none, r1)
+      else match r1 with
+        | n :: r2 => do let n ← n.toNat?; let (cs, r3) ← takeNats n r2; pure (.getter k e (some cs), r3)
+        | [] => none
   | "has" :: rest => do
       let (m, r1) ← parseE rest
       match r1 with
